@@ -457,7 +457,7 @@ where
 	match server.receive_request(&req) {
 		Ok(response) => {
 			let (tx, rx) = mpsc::channel(server_cfg.message_buffer_capacity as usize);
-			let sink = MethodSink::new(tx);
+			let sink = MethodSink::new_with_limit(tx, server_cfg.max_response_body_size);
 
 			// On each method call the `pending_calls` is cloned
 			// then when all pending_calls are dropped
